@@ -867,7 +867,7 @@ def plan(tier, seed):
   if tier == 'quick':
     chunks, per = 32, 500
   else:
-    chunks, per = 96, 7000
+    chunks, per = 96, 5000
   return [{'rseed': seed, 'start': i * per, 'count': per, 'prof': tier}
           for i in range(chunks)]
 
